@@ -64,6 +64,10 @@ def gen_fba_spec(rng, want=None):
         else:
             lb, ub = F(0), F(0)
         r["lb"], r["ub"] = lb, ub
+        if rng.random() < 0.12:
+            # forced fluxes, one-sided and both-sided, in both directions (None = infinite)
+            a, b = sorted([F(rng.randint(1, 12), 4), F(rng.randint(1, 40), 4)])
+            r["lb"], r["ub"] = rng.choice([(a, None), (None, -a), (a, b), (-b, -a), (a, a), (-a, -a), (None, b), (-b, None)])
     if want == "feasible" and rng.random() < 0.5:
         # force some fluxes, but keep a chosen vector inside: pick v0 in the null space by trial
         for r in rxns:
@@ -72,7 +76,7 @@ def gen_fba_spec(rng, want=None):
     if want == "infeasible":
         r = rng.choice(rxns)
         r["lb"] = F(rng.randint(1, 8), 2)
-        r["ub"] = max(r["ub"], r["lb"]) if rng.random() < 0.7 else r["lb"]
+        r["ub"] = (r["ub"] if (r["ub"] is None or r["ub"] >= r["lb"]) else r["lb"]) if rng.random() < 0.7 else r["lb"]
         if rng.random() < 0.5:    # dead end: a metabolite only this reaction touches
             dead = f"M{len(mets)}"
             r["st"] = dict(r["st"], **{dead: "1"})
